@@ -26,6 +26,12 @@ def cases_for(pid):
     sd = os.path.join(VERIF, "seeded")
     if os.path.isdir(sd):
         for d in sorted(os.listdir(sd)):
+            try:
+                with open(os.path.join(sd, d, "meta.json")) as fh:
+                    if json.load(fh).get("retired"):
+                        continue        # the construct it mutated no longer exists (see its meta.json)
+            except (OSError, ValueError):
+                pass
             if d.split("-")[0] == pid and os.path.exists(os.path.join(sd, d, "patch.diff")):
                 out.append(("seed", d, os.path.join(sd, d, "patch.diff")))
     vd = os.path.join(VERIF, "variants")
